@@ -1,0 +1,10 @@
+#pragma once
+
+// Verification hooks (only compiled in with -DFRG_VERIF_HOOKS).
+// FRG_VERIF_POINT(site, obj, v) marks a point right before (or, where noted, right after) an access to
+// shared memory in lock-free code. The verification harness supplies frg_verif_point(); it never changes
+// a value or a branch of the library. Sites whose name starts with "spin:" sit inside wait loops.
+
+extern "C" void frg_verif_point(const char *site, const void *obj, unsigned long v);
+
+#define FRG_VERIF_POINT(site, obj, v) frg_verif_point(site, obj, (unsigned long)(v))
